@@ -1,6 +1,7 @@
 package main
 
 import (
+	"strconv"
 	"go/token"
 	"go/types"
 	"regexp"
@@ -32,6 +33,13 @@ func checkC15(c *Ctx) {
 		c.Undecided("anchor fiat-shamir.Transcript.Bind/ComputeChallenge not found")
 		return
 	}
+	// ComputeChallenge kept as a thin wrapper of a generalised function (AppendChallenge(dst, id)):
+	// the rules are about the function that does the work; ccID is the position of the id there
+	ccID := 1
+	if tgt, pm := thinWrapperTarget(cc); tgt != nil && pm[1] >= 1 && tgt.Signature.Recv() != nil {
+		cc, ccID = tgt, pm[1]
+	}
+	ccIDTok := "p" + strconv.Itoa(ccID-1)
 	// discover the state fields by type, not by name: the map of challenges, the pointer to the
 	// previous challenge, the hash.
 	recvT := bind.Params[0].Type().(*types.Pointer).Elem().Underlying().(*types.Struct)
@@ -104,7 +112,7 @@ func checkC15(c *Ctx) {
 		known,
 		{"NotComputed(id)", `^!` + cur + `\.` + q(fComp) + `$`},
 	})
-	RequireFacts(c, p, "C15.guard", cc, AcceptNilErr, nil, []Req{known})
+	RequireFacts(c, p, "C15.guard", cc, AcceptNilErr, nil, []Req{{"Known(id)", `^has\(pr\.` + q(fMap) + `,` + ccIDTok + `\)$`}})
 	RequireFacts(c, p, "C15.guard", cc, AcceptNilErr,
 		[]string{`^` + cur + `\.` + q(fComp) + `$`, `^0 == ` + cur + `\.` + q(fPos) + `$`, `^` + cur + `\.` + q(fPos) + ` <= 0$`},
 		[]Req{
@@ -168,10 +176,10 @@ func checkC15(c *Ctx) {
 	}
 
 	// ---- L10: no aliasing in or out
-	c.Rule("C15.L10", "L10: a []byte parameter is only read (len, copy source, hash Write argument) and never stored, appended or returned; every returned []byte is not derived from receiver state; every []byte stored in receiver state is freshly allocated", 2)
+	c.Rule("C15.L10", "L10: a []byte parameter is only read (len, copy source, hash Write / Sum argument) and never stored in or appended to transcript state (handing the caller's own slice back, append-style, is not a retention); every returned []byte is not derived from receiver state; every []byte stored in receiver state is freshly allocated", 2)
 	for _, fn := range []*ssa.Function{bind, cc} {
 		c.Instance("C15.L10", 1)
-		checkNoRetainedParamSlices(c, p, "C15.L10", fn)
+		checkNoRetainedParamSlicesOpt(c, p, "C15.L10", fn, true)
 		checkReturnedSlicesFresh(c, p, "C15.L10", fn)
 	}
 	// ivFresh: a slice that shares storage with nothing else, looking through helpers of the package
@@ -275,7 +283,7 @@ func checkC15(c *Ctx) {
 	{
 		fn := cc
 		v := vc
-		recv, id := fn.Params[0], fn.Params[1]
+		recv, id := fn.Params[0], fn.Params[ccID]
 		var reset, sum, wID, wPrev, wBind *ivInstr
 		var otherWrites int
 		for _, x := range v.Instrs() {
@@ -525,6 +533,10 @@ func errResultTested(call *ssa.Call) bool {
 					}
 				}
 			}
+			// `return g(...)` of a multi-result callee: the error is handed to the caller unchanged
+			if _, isRet := u.(*ssa.Return); isRet {
+				return true
+			}
 		}
 	}
 	if isErrorType(call.Type()) {
@@ -605,4 +617,45 @@ func appendedElements(v ssa.Value) []ssa.Value {
 		}
 	}
 	return out
+}
+
+// thinWrapperTarget: fn consists of one call of a function g of the same package whose results it
+// returns unchanged (`return g(a, b, const)`): returns g and, for each parameter index of fn, the
+// index of the parameter of g it is passed as (-1 when it is not passed).
+func thinWrapperTarget(fn *ssa.Function) (*ssa.Function, map[int]int) {
+	if fn == nil || len(fn.Blocks) != 1 {
+		return nil, nil
+	}
+	var call *ssa.Call
+	for _, in := range fn.Blocks[0].Instrs {
+		switch x := in.(type) {
+		case *ssa.Call:
+			if call != nil {
+				return nil, nil
+			}
+			call = x
+		case *ssa.Return, *ssa.Extract, *ssa.DebugRef:
+		default:
+			return nil, nil
+		}
+	}
+	if call == nil {
+		return nil, nil
+	}
+	g := call.Call.StaticCallee()
+	if g == nil || g.Pkg != fn.Pkg || len(g.Blocks) == 0 {
+		return nil, nil
+	}
+	pm := map[int]int{}
+	for i := range fn.Params {
+		pm[i] = -1
+	}
+	for j, a := range call.Call.Args {
+		for i, pa := range fn.Params {
+			if a == ssa.Value(pa) {
+				pm[i] = j
+			}
+		}
+	}
+	return g, pm
 }
